@@ -114,7 +114,13 @@ func c02StructCase(res *core.Result, rng *rand.Rand, t reflect.Type, v reflect.V
 		call = func() error { return valid.Struct(in) }
 	case 2:
 		entry, in = "ValidateStruct", ptrTo(ptrTo(v)).Interface()
-		call = func() error { return valid.ValidateStruct(in, "valid") }
+		tag := "valid"
+		if t.Name() != "" && rng.Intn(2) == 0 {
+			tag = []string{"a", "b"}[rng.Intn(2)] // the generated named types carry independent rule sets under a and b
+			env.Tag = tag
+			res.Count("validatestruct_other_tag")
+		}
+		call = func() error { return valid.ValidateStruct(in, tag) }
 	case 3, 4:
 		// rule override for some outermost fields
 		entry, in = "StructForFn", ptrTo(v).Interface()
